@@ -14,10 +14,16 @@ typedef struct m_map_string_string fmap_t;
 #include "scan_macros.h"
 
 /* ---- trusted: the generated scanner -------------------------------------------------------------------------------- */
+/* any token, any return value; the ghost automaton g_yy_* classifies the calls the way the directive syntax does: a call in
+ * state 0 delivers an ordinary token (UNKNOWN tokens are counted; INCLUDE moves to state 1), a call in state 1 fills the
+ * file-name slot of the include directive (anything but a quoted name - including the end of the file - is counted) */
+#define YT(ret) (((tok_t *)(ret))->t)
 int c_yylex(void *ret, void *s)
 __CPROVER_requires(1)
-__CPROVER_assigns(__CPROVER_object_whole(ret))
-__CPROVER_ensures(1);
+__CPROVER_assigns(__CPROVER_object_whole(ret), g_yy_inc, g_yy_unknown, g_yy_expected)
+__CPROVER_ensures(g_yy_unknown == OLD(g_yy_unknown) + ((!OLD(g_yy_inc) && __CPROVER_return_value != 0 && YT(ret) == TK_UNKNOWN) ? 1 : 0))
+__CPROVER_ensures(g_yy_expected == OLD(g_yy_expected) + ((OLD(g_yy_inc) && (__CPROVER_return_value == 0 || YT(ret) != TK_FNAME)) ? 1 : 0))
+__CPROVER_ensures(g_yy_inc == (!OLD(g_yy_inc) && __CPROVER_return_value != 0 && YT(ret) == TK_INCLUDE));
 
 void *nondet_ptr(void);
 void *nondet_model_ptr(void);
@@ -31,6 +37,12 @@ void yy_delete_buffer(void *b, void *s) {}
 int yylex_destroy(void *s) { return 0; }
 /* N12 hook: addresses of the driver loop's local state */
 void __verif_scan_state(void *lex_stack, void *errors, void *res) { g_ls = lex_stack; g_er = errors; g_rs = res; }
+/* N12 hook: reports per kind */
+void __verif_scan_err(int kind)
+{
+  if (kind == PE_EXPECTED_FILENAME) g_cnt_expected = g_cnt_expected + 1;
+  if (kind == PE_UNKNOWN_TOKEN) g_cnt_unknown = g_cnt_unknown + 1;
+}
 
 #ifdef SPEC_CHECKS_OFF
 #pragma CPROVER check push
@@ -64,7 +76,8 @@ EXISTS_ENSURES(g_ls);
 void c_scan(void *files, long main_id, void *out)
 __CPROVER_requires((void *)files == (void *)g_fl && (void *)out == (void *)g_out && main_id == g_main)
 __CPROVER_requires(FL_N <= g_fl->_cap && g_fl->_cap <= INT_MAX)
-__CPROVER_assigns(g_ls, g_er, g_rs, MODEL_MAP_GHOSTS, __CPROVER_object_whole(g_out))
+__CPROVER_requires(g_yy_inc == 0 && g_yy_unknown == 0 && g_yy_expected == 0 && g_cnt_unknown == 0 && g_cnt_expected == 0)
+__CPROVER_assigns(g_ls, g_er, g_rs, MODEL_MAP_GHOSTS, __CPROVER_object_whole(g_out), g_yy_inc, g_yy_unknown, g_yy_expected, g_cnt_unknown, g_cnt_expected)
 /* C02: the token stream ends with exactly one synthesised EOF token, located where the last scanned token stands ... */
 __CPROVER_ensures(OUT_NT >= 1 && OUT_T[OUT_NT - 1].t == TK_T_EOF) /*@C02*/
 __CPROVER_ensures(OUT_NT < 2 || (OUT_T[OUT_NT - 1].file._id == OUT_T[OUT_NT - 2].file._id && OUT_T[OUT_NT - 1].line == OUT_T[OUT_NT - 2].line)) /*@C02*/
@@ -73,7 +86,10 @@ __CPROVER_ensures(OUT_NT != 1 || (OUT_T[0].file._id == g_main && OUT_T[0].line =
 /* C15/C02: every scanner error (arbitrary index g_e) is of a scanner kind; an absent main file is reported at the placeholder
  * and requests the main file; an absent include requests a name that is not a key of the file map (at the ghost index the
  * map model exposes); no other error carries a request */
-__CPROVER_ensures(g_e >= OUT_NE || ERR_SHAPE(OUT_E[g_e])) /*@C15,C02*/;
+__CPROVER_ensures(g_e >= OUT_NE || ERR_SHAPE(OUT_E[g_e])) /*@C15,C02*/
+/* C15: every include directive whose file-name slot is not a quoted name (also: cut off by the end of the file), and every
+ * unknown token outside such a slot, is reported exactly once */
+__CPROVER_ensures(g_cnt_expected == g_yy_expected && g_cnt_unknown == g_yy_unknown) /*@C15,C02*/;
 #ifdef SPEC_CHECKS_OFF
 #pragma CPROVER check pop
 #endif
@@ -106,6 +122,7 @@ void h_scan(void)
   model_ghost_havoc();
   the_fl._d = mk(cap, sizeof(*the_fl._d)); the_fl._cap = cap; the_fl._n = nondet_ulong();
   g_fl = &the_fl; g_out = &the_out; g_main = nondet_long(); g_e = nondet_ulong(); g_a = nondet_ulong(); g_b = nondet_ulong();
+  g_yy_inc = 0; g_yy_unknown = 0; g_yy_expected = 0; g_cnt_unknown = 0; g_cnt_expected = 0;
   w_scan(&the_fl, g_main, &the_out);
   CANARY;
 }
